@@ -40,6 +40,7 @@ RULE = (
     "non-trivial = at least one injected fault actually fired or one feature differential executed"
 )
 RULE += " A ninth session kind drives the contact fixed point of consistent_initial_conditions (inside System.assemble) into failure - forced, by budget, or by a diverging prox parameter - with continue_with_unconverged on / off: raise or warn, never silent." + " A third of the contact sessions use a prox parameter beyond the contraction range (prox_scaling in [2, 4], legal): the contact fixed point then fails organically as soon as a contact closes, and the same oracle judges the solver's reaction."
+RULE += " Fault F1n (half of the Newton / Rattle / BackwardEuler sessions): a user force law evaluates to NaN from a time or load level on; the reaction oracle applies to the reported failure, and a nonlinear solve that reports success for a non-finite solution followed by a silent return of non-finite rows is a violation."
 COMPONENTS = {
     "real": ["all eight solvers", "fsolve", "every fixed-point loop (through the guarded decision hook)", "scipy / scipy_dae back ends (run for real up to the stop time)"],
     "stub": ["tqdm -> SimProgress (step seam)", "warnings / stdout captured (warnings are the observable)"],
@@ -56,6 +57,7 @@ def gen(rng, tier, index):
     name = ALL[index % len(ALL)]
     cont = bool((index // len(ALL)) % 2)
     plan = {"solver_name": name, "continue": cont, "sample_seed": int(rng.integers(2**31)), "all_points": tier == "thorough", "feature": None}
+    plan["poison"] = bool((index // (2 * len(ALL))) % 2 == 0)  # fault F1n in half of the Newton / Rattle / BackwardEuler sessions
     if name == "Assemble":
         # the contact fixed point of consistent_initial_conditions (solver/_base.py) runs inside System.assemble
         plan["scene_kind"] = "initial_conditions"
@@ -153,7 +155,7 @@ class Outcome:
     pass
 
 
-def one_run(plan, log, faults=(), stop_frac=None, scene=None, out=None):
+def one_run(plan, log, faults=(), stop_frac=None, scene=None, out=None, poison=None):
     from cardillo import System
     from cardillo.solver import SolverOptions, Newton, Riks
 
@@ -162,10 +164,31 @@ def one_run(plan, log, faults=(), stop_frac=None, scene=None, out=None):
     O = Outcome()
     O.sim, O.sol, O.exc, O.B = sim, None, None, None
     O.n_expected = None
+    extra = None
+    O.solves = []  # (event sequence number, success, solution finite) of every fsolve call (poison runs)
+    patched = []
+    if poison is not None:
+        import importlib
+        from ..custom import PoisonedForce
+
+        extra = lambda B: [PoisonedForce(B.bodies[0], poison)]
+
+        def wrapped(orig):
+            def f(*a, **k):
+                r = orig(*a, **k)
+                O.solves.append((log.ev("fsolve_returned", bool(r.success), bool(np.all(np.isfinite(r.x)))), bool(r.success), bool(np.all(np.isfinite(r.x)))))
+                return r
+
+            return f
+
+        for mn in ("cardillo.solver.statics", "cardillo.solver.rattle", "cardillo.solver.backward_euler"):
+            m = importlib.import_module(mn)
+            patched.append((m, m.fsolve))
+            m.fsolve = wrapped(m.fsolve)
     with sim.installed():
         try:
             if name == "Newton":
-                B = build(scene or plan["scene"], options=SolverOptions(compute_consistent_initial_conditions=False))
+                B = build(scene or plan["scene"], options=SolverOptions(compute_consistent_initial_conditions=False), extra=extra)
                 O.B = B
                 opts = SolverOptions(newton_atol=1e-8, newton_rtol=1e-8, newton_max_iter=25, continue_with_unconverged=plan["continue"])
                 O.t_grid = np.linspace(0, 1, plan["n_load_steps"] + 1)
@@ -187,7 +210,7 @@ def one_run(plan, log, faults=(), stop_frac=None, scene=None, out=None):
                 ).solve()
             else:
                 sc = project_velocities(scene or plan["scene"])
-                B = build(sc)
+                B = build(sc, extra=extra)
                 O.B = B
                 require_regular(B)
                 spec = plan["solver"]
@@ -201,6 +224,9 @@ def one_run(plan, log, faults=(), stop_frac=None, scene=None, out=None):
             raise
         except Exception as e:
             O.exc = e
+        finally:
+            for m, f in patched:
+                m.fsolve = f
     return O
 
 
@@ -470,8 +496,46 @@ def execute(plan, out, log):
             if out["violations"]:
                 # keep the failing injection point in the plan for the replay
                 return
+    if plan.get("poison") and name in ("Newton", "Rattle", "BackwardEuler") and not out["violations"] and pilot.sol is not None and len(pilot.sol.t) >= 2:
+        r = poison_run(plan, pilot, out, log)
+        reactions.add(("poison", r))
     out["nontrivial"] = out["probes"]["fault_fired"] > 0
     out["abstract"] = repr((name, plan["continue"], plan.get("scene_kind"), tuple(sorted(reactions))))
+
+
+def poison_run(plan, pilot, out, log):
+    """Fault F1n: from a time / load level on a user force law evaluates to NaN.  Every nonlinear solve that meets it
+    has failed; the reaction oracle applies.  In particular a solve that reports success for a non-finite iterate,
+    followed by a silent return of non-finite rows, is a failed solve that was passed off as converged."""
+    name = plan["solver_name"]
+    tg = pilot.t_grid
+    k_p = 1 + plan["sample_seed"] % (len(tg) - 1)
+    t_p = float(0.5 * (tg[k_p - 1] + tg[k_p]))
+    O = one_run(dict(plan, verbose=True), log, out=out, poison=t_p)
+    out["faults"]["F1n_nonfinite_model_evaluation"] += 1
+    log.ev("poison_run", k_p, t_p, O.exc is not None, len(O.sim.failed_instances()))
+    if O.exc is not None:
+        out["probes"]["poison_reaction_raise"] += 1
+        return "raise"
+    if O.sim.failed_instances():
+        out["probes"]["poison_failure_reported"] += 1
+        return "poison/" + str(judge(dict(plan, verbose=True), O, out, ("poison", k_p)))
+    sol = O.sol
+    rows = [i for i in range(len(sol.t)) if not (np.all(np.isfinite(sol.q[i])) and (sol.u is None or np.all(np.isfinite(sol.u[i]))))]
+    bad = [s for s in O.solves if s[1] and not s[2]]
+    if rows and bad:
+        after = [w for w in O.sim.warnings if w[0] > bad[0][0]]
+        if not after:
+            out["violations"].append(
+                violation(
+                    "nonfinite_declared_converged",
+                    name,
+                    f"a force law evaluates to NaN from t={t_p:.6g} on: {len(bad)} nonlinear solves reported success for a non-finite solution, no error was raised, no warning followed, and the returned solution has {len(rows)} non-finite rows (first: row {rows[0]}, t={float(sol.t[rows[0]]):.6g}) among {len(sol.t)}",
+                )
+            )
+            return "violation"
+    out["probes"]["poison_no_claim"] += 1
+    return "no_claim"
 
 
 def shrink(plan):
